@@ -123,7 +123,7 @@ def main():
         else:
             errs = "\n".join(l for l in outx.splitlines() if "error" in l.lower())[:2500]
             failed_thms += ethms
-            extra_broken = (extra_broken or "") + f"bridge module {extra} no longer checks against the definitions regenerated from /repo ({len(ethms)} lemmas: {', '.join(ethms[:8])}):\n{errs}\n"
+            extra_broken = (extra_broken or "") + f"theorem module {extra} no longer checks ({len(ethms)} theorems: {', '.join(ethms[:8])}; for C18 this is the bridge to the definitions regenerated from /repo):\n{errs}\n"
             log(outx[-2500:])
     proof_broken = None
     discharged, axioms_used = 0, set()
